@@ -177,9 +177,13 @@ def subfield_layer(ck, n_cases):
                     dict(base, expr=f"view {opn} np.array({vals}, {dt})", finding_key="C10:cmp:array" if opn in CMP_NAME else "C10:binop"))
             ck.count("sub:binop_array:" + opn)
         elif kind == "func":
-            fname = ck.rng.choice(["min", "max", "sum", "mean", "unique", "isin", "concatenate", "where"])
+            fname = ck.rng.choice(["min", "max", "sum", "mean", "unique", "isin", "concatenate", "where", "isin_kw", "unique_kw", "sum_kw", "sort_kw", "isin_kw", "unique_kw"])
             c = ck.rng.randrange(0, mx + 2)
+            flag = bool(ck.rng.getrandbits(1))
             fns = {
+                # keyword arguments reach numpy as they were given (flags that are False, too)
+                "isin_kw": lambda v: np.isin(v, [0, c], invert=flag), "unique_kw": lambda v: np.unique(v, return_counts=flag, return_index=not flag),
+                "sum_kw": lambda v: np.sum(v, keepdims=flag, dtype=np.int64), "sort_kw": lambda v: np.sort(v, axis=0, kind="stable"),
                 "min": lambda v: np.min(v), "max": lambda v: np.max(v), "sum": lambda v: np.sum(v), "mean": lambda v: np.mean(v),
                 "unique": lambda v: np.unique(v), "isin": lambda v: np.isin(v, [0, c]),
                 "concatenate": lambda v: np.concatenate([v, v]), "where": lambda v: np.where(v >= c)[0],
@@ -192,6 +196,8 @@ def subfield_layer(ck, n_cases):
             ck.count("sub:method")
         else:
             kkind, key = c09.gen_key(ck.rng, n)
+            if kkind == "mask" and ck.rng.random() < 0.5:
+                kkind, key = "mask_as_list", [bool(x) for x in np.asarray(key).tolist()]       # a boolean mask given as a python list
             compare(ck, f"fmt {fmt} {name}[{kkind}]", lambda: np.array(view[key]), lambda: plain[key], dict(base, expr=f"view[{key!r}]", finding_key="C10:index"))
             ck.count("sub:index:" + kkind)
     ck.sample({"layer": "subfield-expr", "example": "np.unique(las.classification), las.return_number + np.uint8(3), las.synthetic[mask]"})
